@@ -234,7 +234,12 @@ class ExpressionParser:
             expected = self.check(_FIRST_EXP)
             right = None
             if expected:
-                right = self.parse_mult()
+                # A quotient ends at its divisor: "8 / 4 * 2" is (8 / 4) * 2, not
+                # 8 / (4 * 2). Products keep nesting to the right.
+                if opType == TOKEN_TYPES.Divide:
+                    right = self.parse_exponent()
+                else:
+                    right = self.parse_mult()
 
             if not expected or right is None:
                 assert self._all_tokens is not None
